@@ -587,4 +587,44 @@ theorem trap_potential_returned_well (I : Input ℝ) (phiPrev : List ℝ)
   simp only [deviceBP, ionFree, List.mem_singleton] at hs
   subst hs; simp
 
+/-- **the stored trap potential lies between two frozen-velocity Poisson potentials of the same beam** — the iterate-level form of the property's
+"between the analytic uniform-beam potentials for the nominal and the space-charge-reduced electron velocity", for the potential `Device.get`
+stores (`(get I).phi = step φ_prev`): with the previous iterate in `[p_min, 0]`, `E + p_min > 0` and a last correction `|y| ≤ 2δ(E + φ_prev)`
+(`δ ≈ 10⁻³` from the stopping test), `φ_lo ≤ (get I).phi ≤ φ_hi`, `φ_lo` / `φ_hi` being the finite-difference Poisson potentials on the device
+mesh of the uniform beam at the velocity of `E + p_min` with the charge scaled by `1 + δ`, and at the velocity of `E` with the charge scaled by
+`1 − δ` (their continuum limits are the analytic potentials, C12) -/
+theorem trap_potential_returned_between (I : Input ℝ) (phiPrev philo phihi : List ℝ) (pm δ : ℝ)
+    (hre : 0 < I.r_e) (hrd : 2 * I.r_e < I.r_dt) (hn : 12 ≤ I.n_grid)
+    (hmax : I.r_dt ≤ 2 * I.r_e * 3 ^ (4 * (I.n_grid / 6) - 1)) (hcur : 0 ≤ I.current)
+    (hstep : (get I).phi = (step (deviceBP I) phiPrev).phi) (hlen : phiPrev.length = (get I).grid.length)
+    (hlo_len : philo.length = (get I).grid.length) (hhi_len : phihi.length = (get I).grid.length)
+    (hp : PivotsOk 0 (newtonRows (deviceBP I).ldu (step (deviceBP I) phiPrev).jd
+      (targetFun none (deviceBP I).ldu phiPrev (step (deviceBP I) phiPrev).b)))
+    (hpm : ∀ p ∈ phiPrev, pm ≤ p) (hp0 : ∀ p ∈ phiPrev, p ≤ 0) (hpos : 0 < I.e_kin + pm) (hδ0 : 0 ≤ δ) (hδ1 : δ < 1)
+    (hy : ∀ i (h1 : i < phiPrev.length) (h2 : i < (step (deviceBP I) phiPrev).y.length),
+      |((step (deviceBP I) phiPrev).y)[i]| ≤ 2 * δ * (I.e_kin + phiPrev[i]))
+    (hwlo : philo.getLast? = some 0) (hwhi : phihi.getLast? = some 0)
+    (hlo : mulL 0 (get I).ldu philo = (beamDensity (get I).grid I.current I.r_e).map fun c =>
+      (1 + δ) * (-c / Real.sqrt (2 * Const.Q_E * (I.e_kin + pm) / Const.M_E) / Const.EPS_0))
+    (hhi : mulL 0 (get I).ldu phihi = (beamDensity (get I).grid I.current I.r_e).map fun c =>
+      (1 - δ) * (-c / Real.sqrt (2 * Const.Q_E * I.e_kin / Const.M_E) / Const.EPS_0)) :
+    (∀ p ∈ List.zip philo (get I).phi, p.1 ≤ p.2) ∧ (∀ p ∈ List.zip (get I).phi phihi, p.1 ≤ p.2) := by
+  have hg : GridMP (get I).grid := device_grid_admissible I.r_e I.r_dt I.n_grid hre hrd hn hmax
+  obtain ⟨hglen, _, _, _, hlastg⟩ := grid_spec I.r_e I.r_dt I.n_grid hre hrd (by omega)
+  have hgl : (get I).grid.getLast? = some I.r_dt := by
+    show (grid I.r_e I.r_dt I.n_grid).getLast? = _
+    rw [List.getLast?_eq_getElem?, hglen]; exact hlastg
+  obtain ⟨hcl, hcz⟩ := C13.beam_density_premise (get I).grid I.current I.r_e I.r_dt hgl (by linarith)
+  have h2 := hg.two_le
+  have hldul : (get I).ldu.length = (get I).grid.length := fdNonuniform_length' _ hg
+  have hw : (step (deviceBP I) phiPrev).phi.getLast? = some 0 :=
+    C13.step_wall_zero (deviceBP I) phiPrev 0 (by omega) (by simp [deviceBP, hlen]) (by simp [deviceBP, hlen, hldul])
+      (fdNonuniform_getLast? _ hg) (fun h => absurd rfl h) (fun _ => ⟨by simp [deviceBP, hcl, hlen], hcz⟩)
+  rw [hstep]
+  refine C13.ionfree_iterate_between (deviceBP I) phiPrev philo phihi pm δ rfl ?_ hg rfl hlen hlo_len hhi_len hcl hcz
+    (C13.beamDensity_nonpos _ _ _ hcur) hp hpm hp0 hpos hδ0 hδ1 hy hw hwlo hwhi hlo hhi
+  intro s hs
+  simp only [deviceBP, ionFree, List.mem_singleton] at hs
+  subst hs; simp
+
 end C14
